@@ -16,7 +16,7 @@ KIT_L = [
     'nbdime.diff_format.op_addrange', 'nbdime.diff_format.op_removerange', 'nbdime.diff_format.op_patch',
     'nbdime.diff_format.SequenceDiffBuilder.__init__', 'nbdime.diff_format.SequenceDiffBuilder.validated',
     'nbdime.diff_format.SequenceDiffBuilder.append',
-    'nbdime.patching.patch_list',
+    'nbdime.patching.patch_list', 'nbdime.patching.patch',
     'lemma.fold1', 'lemma.fold2', 'lemma.al_prefix',
     'nbdime.diffing.lcs.diff_from_lcs',
     'nbdime.diffing.seq_bruteforce.bruteforce_compare_grid', 'nbdime.diffing.seq_bruteforce.bruteforce_llcs_grid',
